@@ -1,19 +1,24 @@
 """C05 — ephemeral listeners never hold up or alter the synchronised stream."""
-from .. import protocol, sendfeed, pipeline, pairfeed
+from .. import protocol, sendfeed, pipeline, pairfeed, neteph
 from ..core import Violation
 import copy, logging
 
 ID = 'C05'
-MODULES = ['OFModel.Zmq.Receiver', 'OFModel.Zmq.Sender', 'OFModel.Zmq.Pair', 'OFModel.Zmq.PairEph', 'OFModel.Gen.Facts']
-PROP_FILES = ['C05', 'C05Pair']
+MODULES = ['OFModel.Zmq.Receiver', 'OFModel.Zmq.Sender', 'OFModel.Zmq.Pair', 'OFModel.Zmq.PairEph', 'OFModel.Zmq.Net', 'OFModel.Zmq.NetEph', 'OFModel.Gen.Facts']
+PROP_FILES = ['C05', 'C05Pair', 'C05Net', 'C05NetTree', 'C05NetHasten', 'C05NetSyncQ']
 RULE = ('sender: paired runs of the real ZMQSender on the same request feed with and without the requests of its ephemeral (? / ??) clients - the ids published and '
         'the set of calls that publish must agree up to stuttering (an ephemeral request may only make a publish happen one call earlier); `??` clients never '
         'produce a request.  receiver: adversarial feeds with ephemeral sources; every ephemeral contribution complete for its subscription, ids non-decreasing per source. '
         'closed pair + listener (OFProps/C05Pair.lean): a REAL ZMQSender and a REAL synchronised ZMQReceiver wired through fakezmq, random schedules with restarts anywhere AND arbitrary requests of an '
         'ephemeral client (any id, new, CLOSE, OOB, two incarnations) injected into the real PULL socket, compared event by event with OF.PairE; then the healing schedule of C05_pair_eph_recovers '
         '(one send per request queued at the real socket, 5 polls, one time-out read off the real client table); oracle pair-eph-not-recovered / pair-order on the implementation. '
-        'non-trivial = at least one publish / one set with an ephemeral contribution / a pair schedule with ephemeral requests')
-ASSUMPTIONS = ['libzmq replaced by the in-process fake', 'closed pair + listener: immediate loss-free delivery, no HWM (a backlog at a stalled consumer is unbounded in the model); the constant 12-event recovery bound of C06 does NOT hold with a listener (kernel-evaluated counter-example in C05Pair.lean), the bound #queued requests + 9 events / 5 polls / one time-out does', 'paired-run comparison is an oracle on the implementation (exploration); the universally quantified statements are the Lean theorems']
+        'network + listeners (OFProps/C05Net.lean): 2-8 REAL MQ objects on fakezmq (chains, tees, trees, every process-function behaviour, restart-free schedules of netfeed) with 0-8 arbitrary '
+        'listener request envelopes (any id: stale, ahead, CLOSE, OOB; new; several listeners / incarnations) injected into the REAL PULL sockets of the publishers, compared event by event with '
+        'OF.Net.Eph.estep (driver op nete.run); oracles net-chain-composition / net-tree-composition (the sets handed to every process() are a prefix of the composition of the upstream process '
+        'functions, listeners or not) and listener-altered-stream (paired run of the same schedule without the listener events: the handed sequences agree as far as both go); at every send that finds listener requests queued the model '
+        'instance of C05_net_listeners_only_hasten is evaluated (publishes without the listener requests => publishes with them; its side conditions hold). '
+        'non-trivial = at least one publish / one set with an ephemeral contribution / a pair schedule with ephemeral requests / a network trial with an effective listener request and a set at a sink')
+ASSUMPTIONS = ['libzmq replaced by the in-process fake', 'network + listeners: the network model of C01/C03 (immediate loss-free FIFO delivery, no HWM, synchronised all-topics subscriptions between the nodes, no restarts for the composition statement); listeners are outside the model - only their requests exist (over-approximation: ANY request with eph != 0 and a listener client id "E..."), what is published to them is not state; a listener at a node without synchronised consumer is not modelled', 'closed pair + listener: immediate loss-free delivery, no HWM (a backlog at a stalled consumer is unbounded in the model); the constant 12-event recovery bound of C06 does NOT hold with a listener (kernel-evaluated counter-example in C05Pair.lean), the bound #queued requests + 9 events / 5 polls / one time-out does', 'paired-run comparison is an oracle on the implementation (exploration); the universally quantified statements are the Lean theorems']
 TRUSTED = ['transcriptions OFModel/Zmq/Receiver.lean and Sender.lean, compared call-by-call with the real classes']
 
 
@@ -162,7 +167,8 @@ def run(ctx):
         r = paired_oracle(t, o) + skip_oracle(t, o) + ff_oracle(t, o)
         npairs[0] += 1
         return r
-    protocol.send_campaign(ctx, 'C05', n, ['sync', 'sync0', 'sync0', 'adv'], extra_oracle=extra)
+    protocol.send_campaign(ctx, 'C05', n, ['sync', 'sync0', 'sync0', 'adv', 'bal'], extra_oracle=extra)
     ctx.result.extra['paired_sender_runs'] = npairs[0]
     ctx.result.extra['paired_oracle'] = dict(STATS)
     if not ctx.replay: pipeline.campaign_eph(ctx, 200 if ctx.thorough else 25)
+    neteph.campaign(ctx, 1500 if ctx.thorough else (400 if ctx.escalate else 120))
